@@ -147,6 +147,10 @@ def gen_real_svg(rng, flags=None):
         pro += rng.choice(['<!DOCTYPE svg>', '<!DOCTYPE svg PUBLIC "-//W3C//DTD SVG 1.1//EN" "http://www.w3.org/Graphics/SVG/1.1/DTD/svg11.dtd">', '<!DOCTYPE   svg  >']) + '\n'
     if rng.chance(0.2):
         pro += gen_misc(rng).replace('<![CDATA[', '<!--').replace(']]>', '-->') if False else ('<!-- c -->' + rng.choice(['', '\n']))
+    if rng.chance(0.12):
+        # a long prolog (stylesheet PIs, several comments, each on its own line): the root is still the first element
+        for _ in range(rng.range(3, 9)):
+            pro += rng.choice(['<!-- note -->', '<?xml-stylesheet href="a.css"?>', '<!-- x y -->', '<?php x?>']) + rng.choice(['\n', '\n\n', ''])
     asrc, vals = gen_attrs(rng, flags=flags)
     vals = [(k, v) for k, v in vals]
     ns = ' xmlns=' + rng.choice(['"%s"' % SVG_NS, "'%s'" % SVG_NS])
